@@ -160,8 +160,8 @@ func oracleC01(w *World, op *Op) {
 		return
 	}
 	if !w.mode.External {
-		if want := sub.ExtraData(); !bytes.Equal(req.Leaf.ExtraData, want) {
-			s.Violate("queued-leaf", "extra-data", "op%03d sub%d (root included in submission: %v): ExtraData is not the validated chain with the root (%d bytes, want %d)", op.ID, sub.ID, sub.IncludeRoot, len(req.Leaf.ExtraData), len(want))
+		if !sub.extraOK(req.Leaf.ExtraData) {
+			s.Violate("queued-leaf", "extra-data", "op%03d sub%d (root included in submission: %v, re-issued root exists: %v): ExtraData is not the validated chain with the root (%d bytes, want %d)", op.ID, sub.ID, sub.IncludeRoot, sub.RootAlt != nil, len(req.Leaf.ExtraData), len(sub.ExtraData()))
 			return
 		}
 	}
